@@ -228,4 +228,17 @@ example :
     r1.2 = .done ∧ lastSum r1.1.log = some (.avail 1) ∧ nData r1.1.log = 2 ∧
     (download id (start r1.1.file [.httpError] [.avail 1])).2 = .skipped := by decide
 
+/-- A corrupt prior file — ANY content whose hash differs from the published one, whatever its size or age — is not
+vouched for by anything: against a server that publishes `hash b` and serves `b`, the call downloads exactly once, returns
+normally and leaves `b`.  (This is the model fact behind the "third call" of the correspondence run, where the real file is
+overwritten between two calls of one process by a body of the same size and timestamps.) -/
+theorem corrupt_prior_is_replaced (hash : Nat → Nat) (bad b : Nat) (ds : List DataResp) (ss : List SumResp)
+    (hbad : hash bad ≠ hash b) :
+    let r := download hash (start (some bad) (.body b :: ds) (.avail (hash b) :: .avail (hash b) :: ss))
+    r.2 = .done ∧ r.1.file = some b ∧ nData r.1.log = 1 := by
+  have h1 : (hash bad == hash b) = false := by simpa using hbad
+  simp [download, start, checkSum, fetch, h1, nData]
+
+example : (download id (start (some 7) [.body 1] [.avail 1, .avail 1])).2 = .done ∧ (7 : Nat) ≠ 1 := by decide
+
 end PhyVerif.C20
